@@ -58,6 +58,7 @@ type c11Shape struct {
 	pre  []string // keys after the text (open a menu, a search, a numeric argument)
 	comp bool
 	hist bool
+	auto bool // history-autosuggest on, with an entry whose suggested remainder wraps onto later rows
 }
 
 var c11Shapes = []c11Shape{
@@ -70,6 +71,7 @@ var c11Shapes = []c11Shape{
 	{name: "with-hint", text: func(w int) string { return "ab" }, pre: []string{"\x1b2"}},
 	{name: "menu-open", text: func(w int) string { return "fo" }, pre: []string{"\t"}, comp: true},
 	{name: "isearch-open", text: func(w int) string { return "ab" }, pre: []string{"\x12", "o"}, hist: true},
+	{name: "autosuggestion-wrapping", text: func(w int) string { return "ab" }, auto: true},
 }
 
 type c11Case struct {
@@ -78,10 +80,15 @@ type c11Case struct {
 	cursor      string
 	w           int
 	transient   bool
+	ttyChanged  bool // a first call ("q" Enter) runs under the baseline tty settings, the settings then change, the case is the second call
 }
 
 func (cs c11Case) String() string {
-	return fmt.Sprintf("exit=%s mode=%s shape=%s cursor=%s width=%d prompt-transient=%v", c11Exits[cs.exit].name, cs.mode, c11Shapes[cs.shape].name, cs.cursor, cs.w, cs.transient)
+	s := fmt.Sprintf("exit=%s mode=%s shape=%s cursor=%s width=%d prompt-transient=%v", c11Exits[cs.exit].name, cs.mode, c11Shapes[cs.shape].name, cs.cursor, cs.w, cs.transient)
+	if cs.ttyChanged {
+		s += " second-call-after-the-tty-settings-changed"
+	}
+	return s
 }
 
 func c11Job(id int, cs c11Case, rcByKM map[string]string, keysByKM map[string]map[string]string) harness.Job {
@@ -91,7 +98,7 @@ func c11Job(id int, cs c11Case, rcByKM map[string]string, keysByKM map[string]ma
 	if cs.transient {
 		rc += "set prompt-transient on\n"
 	}
-	if ex.name == "autosuggest-execute" {
+	if ex.name == "autosuggest-execute" || sh.auto {
 		rc += "set history-autosuggest on\n"
 	}
 	cfg := harness.Config{RC: rc, W: cs.w, H: 24, Prompt: "> ", Multiline: "paren", Editor: ex.editor,
@@ -106,6 +113,9 @@ func c11Job(id int, cs c11Case, rcByKM map[string]string, keysByKM map[string]ma
 		cfg.Comps = &harness.CompSpec{Items: []harness.Comp{{Value: "foo"}, {Value: "fob"}, {Value: "fox", Desc: "d"}}, ByWord: true}
 	}
 	cfg.Hist = []harness.HistSpec{{Kind: "default", Lines: []string{"one", "ab two", "foo bar"}}}
+	if sh.auto {
+		cfg.Hist = []harness.HistSpec{{Kind: "default", Lines: []string{"one", "ab " + strings.Repeat("x", 2*cs.w)}}}
+	}
 	var ans []harness.Answer
 	text := sh.text(cs.w)
 	for _, part := range strings.SplitAfter(text, "\r") {
@@ -157,6 +167,10 @@ func c11Job(id int, cs c11Case, rcByKM map[string]string, keysByKM map[string]ma
 	if ex.fault != "" {
 		ans = append(ans, harness.Answer{Fault: ex.fault})
 	}
+	if cs.ttyChanged {
+		cfg.TtyAlt = []bool{false, true}
+		return harness.Job{ID: id, Cfg: cfg, Calls: [][]harness.Answer{Keys("q", "\r"), ans}, Want: harness.Want{Obs: 2, Screen: 2}}
+	}
 	return harness.Job{ID: id, Cfg: cfg, Calls: [][]harness.Answer{ans}, Want: harness.Want{Obs: 2, Screen: 2, From: len(ans) - 1 - len(ex.keys)}}
 }
 
@@ -173,8 +187,10 @@ func c11Verdict(cs c11Case, t *harness.Trace) (fp, what string, judged bool) {
 		path = "panic"
 	}
 	cls := c11Exits[cs.exit].name
-	if !call.TermiosSame {
-		return "termios-not-restored/" + path, fmt.Sprintf("%s: the terminal mode settings after the call differ from those before it", cs), true
+	for ci := range t.Calls {
+		if o := t.Calls[ci].Outcome; (o == "returned" || o == "panic") && !t.Calls[ci].TermiosSame {
+			return "termios-not-restored/" + path, fmt.Sprintf("%s: the terminal mode settings after call %d differ from those before it", cs, ci+1), true
+		}
 	}
 	if call.After == nil || call.After.Screen == nil {
 		return "", "not judged: no final screen", false
@@ -188,11 +204,13 @@ func c11Verdict(cs c11Case, t *harness.Trace) (fp, what string, judged bool) {
 	}
 	// rows that held input: at every recorded wait, anchored on the cursor
 	maxRow := -1 << 30
+	lastObserved := ""
 	for _, w := range call.Waits {
 		if w.Obs == nil || w.Screen == nil {
 			continue
 		}
 		line := w.Obs.Line
+		lastObserved = line
 		pos := w.Obs.Pos
 		if w.Obs.Local == "isearch" {
 			continue // Line() is the search minibuffer there; the input line rows are counted at other waits
@@ -223,6 +241,17 @@ func c11Verdict(cs c11Case, t *harness.Trace) (fp, what string, judged bool) {
 	if after.CY <= maxRow {
 		return "cursor-not-below-the-input/" + path + "/" + c11ShapeClass(cs), fmt.Sprintf("%s: after the call the terminal cursor is on row %d, but the input occupied rows up to %d; screen: %q", cs, after.CY, maxRow, after.Lines), true
 	}
+	if !cs.transient && (call.Outcome == "panic" || call.Line == lastObserved) {
+		// (when the exit itself changed the line - editor, autosuggest-execute - its rows were never observed)
+		// "fresh": nothing that is neither input nor output may be left between the input and the
+		// cursor (the hint, the menu and the ghost text of an autosuggestion are erased on the way out);
+		// a transient prompt legitimately reprints the line there
+		for r := maxRow + 1; r < after.CY; r++ {
+			if r >= 0 && after.Line(r) != "" && !(strings.HasPrefix(cls, "interrupt") && (after.Line(r) == "^C" || after.Line(r) == "C")) { // the echo of the interrupt character is output
+				return "stale-text-between-input-and-cursor/" + path + "/" + c11ShapeClass(cs), fmt.Sprintf("%s: after the call row %d, between the input (rows up to %d) and the cursor (row %d), still shows %q; screen: %q", cs, r, maxRow, after.CY, after.Line(r), after.Lines), true
+			}
+		}
+	}
 	if after.Line(after.CY) != "" {
 		return "row-under-cursor-not-fresh/" + path, fmt.Sprintf("%s: after the call the cursor row %d shows %q", cs, after.CY, after.Line(after.CY)), true
 	}
@@ -241,9 +270,10 @@ func init() {
 			Mode, Cur   string
 			W           int
 			Tr          bool
+			Tty         bool
 		}
 		jsonUnmarshal(w.Input, &in)
-		cs := c11Case{in.Exit, in.Shape, in.Mode, in.Cur, in.W, in.Tr}
+		cs := c11Case{in.Exit, in.Shape, in.Mode, in.Cur, in.W, in.Tr, in.Tty}
 		t := c.Pool.RunOne(w.Job)
 		fp, what, _ := c11Verdict(cs, t)
 		call := LastCall(t)
@@ -287,10 +317,18 @@ func runC11(c *Ctx) {
 				for _, cur := range cursors {
 					for _, w := range []int{20, 8} {
 						for _, tr := range []bool{false, true} {
-							cases = append(cases, c11Case{ei, si, mode, cur, w, tr})
+							cases = append(cases, c11Case{ei, si, mode, cur, w, tr, false})
 						}
 					}
 				}
+			}
+		}
+	}
+	// the same exits as the second call of a process, after the application's tty settings changed
+	for ei := range c11Exits {
+		for _, mode := range []string{"emacs", "vi-command"} {
+			for _, si := range []int{1, 3} {
+				cases = append(cases, c11Case{ei, si, mode, "end", 20, false, true})
 			}
 		}
 	}
@@ -351,7 +389,7 @@ func runC11(c *Ctx) {
 		}
 		jj := *j
 		c.Violate(Witness{Fingerprint: fp, What: what, Engine: "session", Job: &jj,
-			Input: jsonRaw(map[string]any{"Exit": cs.exit, "Shape": cs.shape, "Mode": cs.mode, "Cur": cs.cursor, "W": cs.w, "Tr": cs.transient})}, func() string {
+			Input: jsonRaw(map[string]any{"Exit": cs.exit, "Shape": cs.shape, "Mode": cs.mode, "Cur": cs.cursor, "W": cs.w, "Tr": cs.transient, "Tty": cs.ttyChanged})}, func() string {
 			f, _, _ := c11Verdict(cs, c.Pool.RunOne(&jj))
 			return f
 		})
